@@ -68,18 +68,20 @@ Negotiable(T, vers, id, weak) ==
 Profile(T, vers, id) ==
   IF vers = VTLS13
   THEN [vers |-> vers, kind |-> "aead", mac |-> 0, bs |-> 0, expl |-> 0, tag |-> Info13(T, id).tag,
-        split |-> FALSE, ku |-> TRUE, seq0 |-> 0]
+        split |-> FALSE, ku |-> TRUE, seq0 |-> 0, dyn |-> TRUE]
   ELSE LET e == Info(T, id) IN
        [vers |-> vers, kind |-> e.kind, mac |-> e.mac, bs |-> e.bs, expl |-> e.expl, tag |-> e.tag,
         split |-> (vers <= VTLS10 /\ e.kind = "cbc"),    \* 1/n-1 record splitting, u_conn.go:468-477
         ku |-> FALSE,
-        seq0 |-> 1]                                      \* the Finished message used sequence number 0
+        seq0 |-> 1,                                      \* the Finished message used sequence number 0
+        dyn |-> TRUE]                                    \* Config.DynamicRecordSizingDisabled = false (the default)
+WithDyn(q, d) == [q EXCEPT !.dyn = d]
 \* the three behaviours the abstract model distinguishes
 ClassOf(q) == IF q.ku THEN "tls13" ELSE IF q.split THEN "cbc10" ELSE "tls12"
 ClassProfile(c) ==
-  CASE c = "tls13" -> [vers |-> VTLS13, kind |-> "aead", mac |-> 0, bs |-> 0, expl |-> 0, tag |-> 16, split |-> FALSE, ku |-> TRUE, seq0 |-> 0]
-    [] c = "cbc10" -> [vers |-> VTLS10, kind |-> "cbc", mac |-> 20, bs |-> 16, expl |-> 0, tag |-> 0, split |-> TRUE, ku |-> FALSE, seq0 |-> 1]
-    [] c = "tls12" -> [vers |-> VTLS12, kind |-> "aead", mac |-> 0, bs |-> 0, expl |-> 8, tag |-> 16, split |-> FALSE, ku |-> FALSE, seq0 |-> 1]
+  CASE c = "tls13" -> [vers |-> VTLS13, kind |-> "aead", mac |-> 0, bs |-> 0, expl |-> 0, tag |-> 16, split |-> FALSE, ku |-> TRUE, seq0 |-> 0, dyn |-> FALSE]
+    [] c = "cbc10" -> [vers |-> VTLS10, kind |-> "cbc", mac |-> 20, bs |-> 16, expl |-> 0, tag |-> 0, split |-> TRUE, ku |-> FALSE, seq0 |-> 1, dyn |-> FALSE]
+    [] c = "tls12" -> [vers |-> VTLS12, kind |-> "aead", mac |-> 0, bs |-> 0, expl |-> 8, tag |-> 16, split |-> FALSE, ku |-> FALSE, seq0 |-> 1, dyn |-> FALSE]
 
 (***************************************************************************)
 (* Wire lengths (halfConn.encrypt, conn.go:483-560).                       *)
@@ -106,6 +108,39 @@ RecVersion(q) == IF q.vers = VTLS13 THEN VTLS12 ELSE q.vers     \* RFC 8446 5.1:
 CtlLen(typ) == IF typ = "ku" THEN 5 ELSE 2                      \* KeyUpdate message / alert
 
 (***************************************************************************)
+(* Dynamic record sizing: Conn.maxPayloadSizeForWrite, conn.go:866-941.   *)
+(* Unless Config.DynamicRecordSizingDisabled, application-data records     *)
+(* start at one TCP segment and grow in arithmetic progression with the    *)
+(* number of application records sent (packetsSent) until 128 KiB have     *)
+(* gone out on the transport (bytesSent), then they are full size.  The    *)
+(* state of the ramp of one writer is r = [pk |-> packetsSent,             *)
+(* bs |-> bytesSent].  Nothing but writing records may move it: this is    *)
+(* what makes "GetOutKeystream does not change what the connection sends   *)
+(* next" a statement about record BOUNDARIES (C28).                        *)
+(***************************************************************************)
+TcpMSS == 1208              \* conn.go tcpMSSEstimate
+BoostThreshold == 131072    \* conn.go recordSizeBoostThreshold
+RecHdr == 5
+BasePayload(q) ==
+  LET p0 == TcpMSS - RecHdr - (IF q.kind = "aead" THEN q.expl ELSE IF q.kind = "cbc" THEN CbcIV(q) ELSE 0)
+      p1 == CASE q.kind = "stream" -> p0 - q.mac
+              [] q.kind = "aead" -> p0 - q.tag
+              [] q.kind = "cbc" -> (p0 - (p0 % q.bs)) - 1 - q.mac IN
+  IF q.vers = VTLS13 THEN p1 - 1 ELSE p1
+Ramping(q, r) == q.dyn /\ r.bs < BoostThreshold
+MaxPayload(q, r) == IF ~Ramping(q, r) \/ r.pk > 1000 THEN MaxPlain ELSE Min(BasePayload(q) * (r.pk + 1), MaxPlain)
+\* one application record of m plaintext bytes went out
+RampAfter(q, r, m) == [pk |-> IF Ramping(q, r) THEN r.pk + 1 ELSE r.pk, bs |-> r.bs + RecHdr + CtLen(q, m)]
+RampCons(m, rest) == [lens |-> <<m>> \o rest.lens, r |-> rest.r]
+RECURSIVE RampChunks(_, _, _), RampTake(_, _, _, _)
+\* writeRecordLocked(application_data, n bytes): the fragment lengths and the ramp afterwards
+RampChunks(q, r, n) == IF n = 0 THEN [lens |-> <<>>, r |-> r] ELSE RampTake(q, r, n, Min(n, MaxPayload(q, r)))
+RampTake(q, r, n, m) == RampCons(m, RampChunks(q, RampAfter(q, r, m), n - m))
+\* Write(n): with 1/n-1 splitting the first byte is a writeRecordLocked of its own
+RampWrite(q, r, n) ==
+  IF q.split /\ n > 1 THEN RampCons(1, RampChunks(q, RampAfter(q, r, 1), n - 1)) ELSE RampChunks(q, r, n)
+
+(***************************************************************************)
 (* State.                                                                  *)
 (*   wr[x]   x's writing half:  epoch, next sequence number, bytes of x's  *)
 (*           stream accepted so far, dead (a fatal alert was sent),        *)
@@ -118,6 +153,7 @@ CtlLen(typ) == IF typ = "ku" THEN 5 ELSE 2                      \* KeyUpdate mes
 (*           are out of the attacker's reach)                              *)
 (*   cut[x]  the attacker altered a record of x and closed that direction  *)
 (*   mutoff[x]  stream offset at which the altered record starts (-1: n/a) *)
+(*   ramp[x] x's dynamic record sizing state [pk, bs] (see above)          *)
 (* A record: typ app|ku|close|fatal, (ep, seq) it was protected under,     *)
 (*   plaintext length as an interval lo..hi (exact when lo = hi; block     *)
 (*   padding hides it on the wire), the Write call it belongs to           *)
@@ -126,12 +162,15 @@ CtlLen(typ) == IF typ = "ku" THEN 5 ELSE 2                      \* KeyUpdate mes
 (*   the record starts when lengths are exact), req (KeyUpdate             *)
 (*   update_requested), mut (altered in flight).                           *)
 (***************************************************************************)
-InitLive(q) ==
+\* sent0[x]: bytes x put on the transport during the handshake (they count for the 128 KiB)
+InitLiveAt(q, sent0) ==
   [q |-> q, live |-> TRUE,
    wr |-> [x \in Sides |-> [ep |-> 0, seq |-> q.seq0, sent |-> 0, dead |-> FALSE, closed |-> FALSE]],
    rd |-> [x \in Sides |-> [ep |-> 0, seq |-> q.seq0, rcvd |-> 0, buf |-> 0, err |-> "none"]],
    net |-> [x \in Sides |-> <<>>], dl |-> [x \in Sides |-> 0], cut |-> [x \in Sides |-> FALSE],
-   mutoff |-> [x \in Sides |-> -1]]
+   mutoff |-> [x \in Sides |-> -1],
+   ramp |-> [x \in Sides |-> [pk |-> 0, bs |-> sent0[x]]]]
+InitLive(q) == InitLiveAt(q, [x \in Sides |-> 0])
 \* MakeConnWithCompleteHandshake returned nil on both sides
 InitNil(q) == [InitLive(q) EXCEPT !.live = FALSE]
 \* u_conn.go:767-815: both ends forged from the same secrets start exactly where a handshake would have
@@ -149,6 +188,7 @@ Ctl(s, x, typ, req) ==
               wbeg |-> w.sent, wend |-> w.sent, idx |-> 1, cnt |-> 1, pre |-> 0, req |-> req, mut |-> FALSE] IN
   [rec |-> rec,
    s |-> [s EXCEPT !.wr[x].seq = @ + 1,
+                   !.ramp[x].bs = @ + RecHdr + CtLen(s.q, CtlLen(typ)),     \* not application data: packetsSent stays
                    !.net[x] = IF s.cut[x] THEN @ ELSE Append(@, rec)]]
 
 (***************************************************************************)
@@ -158,8 +198,10 @@ Ctl(s, x, typ, req) ==
 (* lengths within the intervals has every fragment in 1..2^14 and sums to  *)
 (* n; with 1/n-1 splitting (TLS 1.0, CBC) the first record of a write of   *)
 (* more than one byte carries exactly one byte.  Write(0) sends nothing    *)
-(* (or one empty record).  How the implementation fragments below 2^14     *)
-(* (dynamic record sizing, conn.go:896-941) is deliberately left open.     *)
+(* (or one empty record).  This is the protocol-level requirement; that    *)
+(* the fragments are the ones dynamic record sizing prescribes (RampWrite) *)
+(* is a separate law of the trace specification, and the ramp state        *)
+(* advances by RampWrite whatever the wire showed.                         *)
 (***************************************************************************)
 RECURSIVE SumLo(_), SumHi(_)
 SumLo(c) == IF c = <<>> THEN 0 ELSE Head(c).lo + SumLo(Tail(c))
@@ -176,10 +218,8 @@ FragShapeOK(q, n, c) ==
           /\ SumLo(c) <= n /\ n <= SumHi(c)
           /\ (q.split /\ n > 1) => Len(c) >= 2
 FragOK(q, n, ivs) == FragShapeOK(q, n, Shape(q, n, ivs))
-\* the fragmentation the model checker uses: maximal fragments (plus the split)
-RECURSIVE Greedy(_)
-Greedy(n) == IF n = 0 THEN <<>> ELSE IF n <= MaxPlain THEN <<n>> ELSE <<MaxPlain>> \o Greedy(n - MaxPlain)
-ModelFrags(q, n) == IF q.split /\ n > 1 THEN <<1>> \o Greedy(n - 1) ELSE Greedy(n)
+\* the fragmentation the model checker uses: the one the code produces (maximal fragments when q.dyn is off)
+ModelFrags(s, x, n) == RampWrite(s.q, s.ramp[x], n).lens
 Exact(lens) == [i \in 1..Len(lens) |-> [lo |-> lens[i], hi |-> lens[i]]]
 
 \* (TLC evaluates an operator argument once but a LET definition at every use: values that are used
@@ -192,6 +232,7 @@ DoWrite1(s, x, n, c) ==
                        wbeg |-> w.sent, wend |-> w.sent + n, idx |-> i, cnt |-> Len(c), pre |-> SumLo(SubSeq(c, 1, i - 1)),
                        req |-> FALSE, mut |-> FALSE]] IN
        Res(TRUE, [s EXCEPT !.wr[x].seq = @ + Len(c), !.wr[x].sent = @ + n,
+                           !.ramp[x] = RampWrite(s.q, s.ramp[x], n).r,
                            !.net[x] = IF s.cut[x] THEN @ ELSE @ \o recs],
            n, "none", [NoRecs EXCEPT ![x] = recs])
 DoWrite(s, x, n, ivs) ==
